@@ -169,6 +169,126 @@ theorem C03_first_choice_positive (conf : List SubSt) (rm cr : Int) (a : Algo) (
     subst this
     rw [← hx'] at hxw; exact hxw
 
+/-! ### Reload histories -/
+
+/-- the sub-cluster list keeps pairwise distinct names through `Init` and through every `Reload`, successful or not -/
+theorem C03_reload_names_nodup (c : Cl) (conf : GConf) (hc : NamesNodup c) (hnd : (conf.map (·.1)).Nodup) :
+    NamesNodup (reload c conf).1 := by
+  unfold reload NamesNodup
+  simp only []
+  split
+  · rw [List.map_map, List.map_congr_left (g := fun s : SubSt => s.name)]
+    · exact hc
+    · intro s _; simp only [Function.comp]; cases lookupW conf s.name <;> rfl
+  · exact ((C02.isort_perm _ _).map _).nodup_iff.mpr (reload_list_names_nodup c.subs conf hc hnd)
+
+theorem C03_init_names_nodup (conf : List SubSt) (rm cr : Int) (a : Algo) (c : Cl)
+    (hnd : (conf.map (·.name)).Nodup) (hc : mkCluster conf rm cr a = some c) : NamesNodup c := by
+  unfold mkCluster at hc
+  split at hc
+  · simp at hc
+  · simp at hc; subst hc
+    exact ((C02.isort_perm _ _).map _).nodup_iff.mpr hnd
+
+/-- arbitrary reload sequences (each conf a map, i.e. distinct keys) keep the invariant -/
+theorem C03_reload_sequence_names_nodup (c : Cl) (confs : List GConf) (hc : NamesNodup c)
+    (hnd : ∀ cf ∈ confs, (cf.map (·.1)).Nodup) :
+    NamesNodup (confs.foldl (fun c cf => (reload c cf).1) c) := by
+  induction confs generalizing c with
+  | nil => exact hc
+  | cons cf rest ih =>
+    simp only [List.foldl_cons]
+    exact ih _ (C03_reload_names_nodup c cf hc (hnd cf (by simp))) (fun x hx => hnd x (by simp [hx]))
+
+/-- **History independence**: a `Reload` that returns nil installs exactly the balancer a FRESH `Init` of the same
+    configuration builds — same sorted (name, weight) list, totalWeight, `single`, and (when `single`) `avail` —
+    whatever sub-clusters existed before (added, removed, re-weighted, any name order). -/
+theorem C03_reload_fresh (c : Cl) (conf : GConf) (c' : Cl) (hc : NamesNodup c) (hnd : (conf.map (·.1)).Nodup)
+    (hr : reload c conf = (c', true)) :
+    ∃ g0, C02.gslbInit (confSubs conf) = some g0 ∧ toSubs c'.subs = g0.subs ∧ c'.g.subs = g0.subs ∧
+      c'.g.total = g0.total ∧ c'.g.single = g0.single ∧ (g0.single = true → c'.g.avail = g0.avail) := by
+  unfold reload at hr
+  simp only [] at hr
+  rw [reload_subs_eq c.subs conf hc hnd] at hr
+  split at hr
+  · simp at hr
+  · rename_i htot
+    simp only [Prod.mk.injEq, and_true] at hr
+    subst hr
+    unfold C02.gslbInit C02.gslbInitOn
+    simp only [htot, if_false]
+    refine ⟨_, rfl, ?_, rfl, rfl, rfl, ?_⟩
+    · exact reload_subs_eq c.subs conf hc hnd
+    · intro hs; simp only [] at hs ⊢; simp [hs]
+
+/-- hence every hash decision after the reload equals the decision of a fresh load -/
+theorem C03_reload_decision_fresh (c : Cl) (conf : GConf) (c' : Cl) (hc : NamesNodup c)
+    (hnd : (conf.map (·.1)).Nodup) (hr : reload c conf = (c', true)) :
+    ∃ g0, C02.gslbInit (confSubs conf) = some g0 ∧ ∀ h, C02.subBalance c'.g h = C02.subBalance g0 h := by
+  obtain ⟨g0, hg, _, h2, h3, h4, h5⟩ := C03_reload_fresh c conf c' hc hnd hr
+  refine ⟨g0, hg, fun h => ?_⟩
+  unfold C02.subBalance
+  rw [h2, h3, h4]
+  by_cases hs : g0.single = true
+  · simp [hs, h5 hs]
+  · simp [hs]
+
+/-- **After any Reload that returns nil the hash-chosen sub-cluster has weight > 0** (for every key),
+    the list is sorted by name, and in `single` mode `avail` indexes the only positive-weight sub-cluster
+    IN THAT SORTED LIST. -/
+theorem C03_reload_first_choice_positive (c : Cl) (conf : GConf) (c' : Cl) (hc : NamesNodup c)
+    (hnd : (conf.map (·.1)).Nodup) (hr : reload c conf = (c', true)) :
+    (∀ h s, firstChoice c' h = some s → 0 < s.w) ∧ C02.Sorted (·.name) c'.subs ∧
+    (c'.g.single = true → ∃ x, C02.posW (toSubs c'.subs) = [x] ∧ (toSubs c'.subs)[c'.g.avail]? = some x) := by
+  obtain ⟨g0, hg, h1, h2, h3, h4, h5⟩ := C03_reload_fresh c conf c' hc hnd hr
+  obtain ⟨_, _, hdec⟩ := C03_reload_decision_fresh c conf c' hc hnd hr
+  have hnn : NamesNodup c' := by
+    have := C03_reload_names_nodup c conf hc hnd; rw [hr] at this; exact this
+  have hgOn : C02.gslbInitOn (C02.isort (·.name) (confSubs conf)) = some g0 := hg
+  have hS : g0.subs = C02.isort (·.name) (confSubs conf) := by
+    unfold C02.gslbInitOn at hgOn; simp only [] at hgOn
+    split at hgOn
+    · simp at hgOn
+    · simp at hgOn; rw [← hgOn]
+  refine ⟨?_, ?_, ?_⟩
+  · intro h s hf
+    unfold firstChoice at hf
+    obtain ⟨x, hx, hfs⟩ := Option.bind_eq_some_iff.mp hf
+    obtain ⟨g0', hg', hd'⟩ := C03_reload_decision_fresh c conf c' hc hnd hr
+    rw [hg] at hg'; simp at hg'; subst hg'
+    rw [hd' h] at hx
+    obtain ⟨x', hx', _, hxw, hxm⟩ := C02.C02_sub_partition _ g0 hgOn h
+    rw [hx] at hx'; simp at hx'; subst hx'
+    rw [← hS, ← h1] at hxm
+    obtain ⟨s', hs', hsx⟩ := List.mem_map.mp hxm
+    have hsm := List.mem_of_find?_eq_some hfs
+    have hsn : s.name = x.name := by simpa using List.find?_some hfs
+    have : s = s' := eq_of_nodup_map (fun s : SubSt => s.name) c'.subs hnn s hsm s' hs' (by show s.name = s'.name; rw [hsn, ← hsx])
+    subst this
+    rw [← hsx] at hxw; exact hxw
+  · unfold reload at hr
+    simp only [] at hr
+    split at hr
+    · simp at hr
+    · simp only [Prod.mk.injEq, and_true] at hr
+      rw [← hr]; exact C02.isort_sorted _ _
+  · intro hs
+    rw [h4] at hs
+    have hav := h5 hs
+    unfold C02.gslbInitOn at hgOn; simp only [] at hgOn
+    split at hgOn
+    · simp at hgOn
+    · simp only [Option.some.injEq] at hgOn
+      rw [← hgOn] at hs hav
+      simp only [] at hs hav
+      have hlen : (C02.posW (C02.isort (·.name) (confSubs conf))).length = 1 := by simpa using hs
+      obtain ⟨x, hx⟩ := List.length_eq_one_iff.mp hlen
+      have hne : C02.posW (C02.isort (·.name) (confSubs conf)) ≠ [] := by rw [hx]; simp
+      obtain ⟨j, hj, hl⟩ := (C02.lastPos_spec (C02.isort (·.name) (confSubs conf)) 0 0).1 hne
+      rw [h1, hS]
+      refine ⟨x, hx, ?_⟩
+      rw [hav, hj, Nat.zero_add, hl, hx]; rfl
+
 /-! ### non-vacuity: first choice `a` is all down, cross retry lands on `b` (n = 0) -/
 def exCl : Cl :=
   { subs := [⟨"a", 1, [⟨"x:1", 100, 100, 0, false⟩]⟩, ⟨"b", 0, [⟨"y:1", 100, 100, 0, true⟩, ⟨"z:1", 0, 0, 0, true⟩]⟩]
@@ -177,5 +297,15 @@ def exCl : Cl :=
 example : (balance exCl 0 7 0).1 = .ok "b" ⟨"y:1", 100, 100, 0, true⟩ := by decide
 example : (balance { exCl with crossRetry := 0 } 0 7 0).1 = .err .noBackend "a" := by decide
 example : (balance exCl 4 7 0).1 = .err .retryTooMany "" := by decide
+
+/-- the scenario of a stale `avail`: {idc-b:100, idc-c:0} reloaded to {idc-a:0, idc-b:100, idc-c:0} -/
+def exR : Cl :=
+  { subs := [⟨"idc-b", 100, [⟨"x:1", 100, 100, 0, true⟩]⟩, ⟨"idc-c", 0, []⟩]
+    g := { subs := [⟨"idc-b", 100⟩, ⟨"idc-c", 0⟩], total := 100, single := true, avail := 0 }
+    retryMax := 2, crossRetry := 1, algo := .smooth }
+example : ((reload exR [("idc-c", 0), ("idc-a", 0), ("idc-b", 100)]).1.g.avail,
+           (reload exR [("idc-c", 0), ("idc-a", 0), ("idc-b", 100)]).2) = (1, true) := by decide
+example : (firstChoice (reload exR [("idc-c", 0), ("idc-a", 0), ("idc-b", 100)]).1 12345).map (·.name) = some "idc-b" := by
+  decide
 
 end BfeVerif.C03
